@@ -410,6 +410,10 @@ func (c *FnCtx) specCall(env *Env, x *ast.CallExpr) Val {
 			// for an interface holding a typed nil pointer)
 			v := c.eval(env, x.Args[0])
 			return mathInt(app("if_ptr", v.T))
+		case "ptrint":
+			// ptrint(p): the address held by a pointer, as a mathematical integer (ghost keys)
+			v := c.eval(env, x.Args[0])
+			return mathInt(v.T)
 		case "tagof":
 			t := c.specType(env, x.Args[0])
 			return mathInt(c.typeTag(t))
